@@ -396,9 +396,68 @@ def _factory():
     return Harness()
 
 
+# ------------------------------------------------------------------ part C: per-command prefixes in pipelines
+
+
+def _part_c(ctx):
+    """`$X=1 cmd` prefixes on every subset of the stages of 1-3 stage pipelines, end to end through the
+    parser and cmds_to_specs with REAL children that write what they received to a file."""
+    import itertools
+
+    d = common.scratch_dir("c10c")
+    bindir = os.path.join(d, "bin")
+    os.makedirs(bindir)
+    with open(os.path.join(bindir, "penv"), "w") as f:
+        f.write('#!/bin/sh\nprintf "X=%s;Y=%s" "${X-<unset>}" "${Y-<unset>}" > "$1"\n')
+    os.chmod(os.path.join(bindir, "penv"), 0o755)
+    xsh = load_session(data_dir=d, path=[bindir, "/usr/bin", "/bin"], env={"XONSH_SUBPROC_RAISE_ERROR": False, "Y": "gy"})
+    prefixes = [None, ("X", "1"), ("Y", "2"), ("X", "a b")]
+    n_cases = 0
+    for nst in (1, 2, 3):
+        for combo in itertools.product(prefixes, repeat=nst):
+            if nst == 3 and sum(p is not None for p in combo) > 2 and not ctx.thorough:
+                continue
+            outs = [os.path.join(d, f"o{i}") for i in range(nst)]
+            for o in outs:
+                if os.path.exists(o):
+                    os.unlink(o)
+            stages = []
+            for i, p in enumerate(combo):
+                pre = "" if p is None else f"${p[0]}={p[1]!r} "
+                stages.append(f"{pre}penv {outs[i]}")
+            line = " | ".join(stages)
+            try:
+                xsh.execer.exec(line + "\n", glbs=xsh.ctx)
+                err = None
+            except Exception as e:  # noqa: BLE001
+                err = f"{type(e).__name__}: {e}"[:200]
+            n_cases += 1
+            for i, p in enumerate(combo):
+                want = {"X": "<unset>", "Y": "gy"}
+                if p is not None:
+                    want[p[0]] = p[1]
+                wants = f"X={want['X']};Y={want['Y']}"
+                got = open(outs[i]).read() if os.path.exists(outs[i]) else None
+                if err or got != wants:
+                    ctx.violation(
+                        f"percmd-prefix-in-pipeline:stage{i + 1}of{nst}:{'own-prefix-lost' if p is not None and got is not None and got != wants else 'foreign-or-missing'}",
+                        "a per-command `$X=1 cmd` prefix reaches exactly its own command's child",
+                        {"line": line, "stage": i},
+                        err or got,
+                        wants,
+                    )
+                    break
+            if "X" in xsh.env or xsh.env.get("Y") != "gy":
+                ctx.violation("percmd-prefix-leaks-into-session", "the prefix does not outlive the command", {"line": line}, {"X": xsh.env.get("X"), "Y": xsh.env.get("Y")}, {"X": None, "Y": "gy"})
+    ctx.sample({"pipeline": "penv o0 | $X='1' penv o1 | $Y='2' penv o2", "stage2_child_sees": "X=1;Y=gy"})
+    return n_cases
+
+
 def run(ctx):
     evals, nontrivial, skipped, nvars = _part_a(ctx)
     ctx.log(f"part A: {nvars} registered variables/types, {evals} (variable, value) round trips, {skipped} skipped (no validator/converter/detyper)")
+    n_c = _part_c(ctx)
+    ctx.log(f"part C: {n_c} pipelines with per-command prefixes through real children")
     depth = ctx.pick(5, 7)
     r = seqx.bfs(_factory, depth, ctx, budget_s=ctx.pick(45, 800), chunk=8)
     ctx.add_violations(r["violations"])
@@ -418,6 +477,7 @@ def run(ctx):
         roundtrip_distinct=nontrivial,
         roundtrip_variables=nvars,
         roundtrip_skipped=skipped,
+        percmd_pipeline_cases=n_c,
         explanation="part B transitions execute the real Env operations and the real SubprocSpec.prep_env_subproc; every launch is compared with a from-scratch detype of the reference's logical values; part A: every registered variable x every pool value its validator accepts",
     )
     ctx.assumptions += ["LC_* variables skipped (setlocale side effects)", "variables with an accept-anything validator have no defined value domain and are skipped in part A"]
